@@ -337,6 +337,8 @@ pub fn run(report: &Report, thorough: bool) -> Evidence {
                     crate::drv::clear_user_files(&o_on);
                     crate::drv::clear_user_files(&o_off);
                 }
+                // every third configuration: the context with the option on is a re-configured one
+                o_on.via_update = (idx % cfgs.len()) % 3 == 2;
                 let mut on = Ctx::new(&o_on).expect("ctx");
                 let mut off = Ctx::new(&o_off).expect("ctx");
                 on.with_pre = false;
